@@ -891,8 +891,11 @@ class C11(Spec):
     # ---- known findings ----------------------------------------------------
     def known(self, c, failure):
         """C11-KF1: two or more list/array/mask entries in ONE index expression are paired element-wise by
-        NumPy (their axes merge into one) while the labels are selected per axis."""
-        if not failure.startswith('op '):
+        NumPy (their axes merge into one) while the labels are selected per axis.
+        Boundary proved in Lean (PsiProofs/C11.lean): `single_advanced_counts` (<= 1 list/mask entry: counts always
+        equal the axis lengths) and `two_advanced_boundary` (two entries: counts differ iff the two lists have
+        different lengths) -- hence only a COUNT failure on such an expression is an instance of the finding."""
+        if not failure.startswith('op ') or 'for an axis of length' not in failure:
             return None
         try:
             n = int(failure[3:].split(':')[0])
